@@ -57,6 +57,9 @@ func (s *PStmt) Line() string {
 		}
 		return fmt.Sprintf("\t%s %s", s.Mn, s.Label)
 	case "movl":
+		if s.Text != "" {
+			return fmt.Sprintf("\tMOV %s,%s", s.Reg.Text, s.Text) // an EQU alias of the label
+		}
 		return fmt.Sprintf("\tMOV %s,%s", s.Reg.Text, s.Label)
 	case "lgdt":
 		return fmt.Sprintf("\tLGDT [%s]", s.Label)
